@@ -163,12 +163,14 @@ def splice_fn(text, item, key):
             p = loop_body_open[k]
             inserts.append((p, p, '\n' + ptxt + '\n'))
             continue
-        rx = _lit_regex(anchor)
+        after = anchor.startswith('after:')
+        a2 = anchor[6:] if after else anchor
+        rx = re.compile(a2[3:]) if a2.startswith('re:') else _lit_regex(a2)
         ms = list(rx.finditer(text))
         if len(ms) != 1:
             raise LostAnchor('%s: proof anchor %r matched %d times' % (key, anchor[:60], len(ms)))
-        p = ms[0].start()
-        inserts.append((p, p, ptxt + '\n'))
+        p = ms[0].end() if after else ms[0].start()
+        inserts.append((p, p, ('\n' + ptxt + '\n') if after else (ptxt + '\n')))
     out = text
     for s, e, ins in sorted(inserts, key=lambda x: -x[0]):
         out = out[:s] + ins + out[e:]
